@@ -3,7 +3,7 @@
    without rows entered for all affiliates. *)
 From Coq Require Import List NArith ZArith QArith Qcanon Bool Lia Sorted Permutation.
 From ACB Require Import Base.Outcome Base.QcExtra Base.Arith Model.Tx Model.Ledger Model.Sfl
-     Model.DeltaList Model.App Model.Summary Proofs.Tactics Proofs.C15Full Proofs.C04Sum
+     Model.DeltaList Model.App Model.Summary Model.SummaryObs Proofs.Tactics Proofs.C15Full Proofs.C04Sum
      Proofs.C04Inv Proofs.C04Reject Proofs.RenderProps Proofs.C01Refine Proofs.EraseRi Proofs.SortLayout
      Proofs.C16App Proofs.SummaryProps
      Proofs.C10Scan Proofs.C10Sim Proofs.C10Ranges Proofs.C10Cut Proofs.C10Roundtrip Proofs.C10Window Proofs.C10Holdings.
@@ -218,6 +218,12 @@ Proof.
   rewrite E1, E2. reflexivity.
 Qed.
 
+Lemma filter_erase_d l : filter (fun d => negb (idle_split d)) (map erase_d l) = map erase_d (filter (fun d => negb (idle_split d)) l).
+Proof.
+  induction l as [|d l IH]; cbn [map filter]; [reflexivity|].
+  change (idle_split (erase_d d)) with (idle_split d). destruct (negb (idle_split d)); cbn [map]; rewrite IH; reflexivity.
+Qed.
+
 (* ---------------------------------------------------------------- assembling the re-run *)
 Lemma assemble latest rows0 ds dsLe dsT GK T dsGK :
   let rows := Summary.number_from 0 rows0 in
@@ -228,10 +234,10 @@ Lemma assemble latest rows0 ds dsLe dsT GK T dsGK :
   run exact None (GK ++ T) = (dsGK ++ dsT, None) ->
   ds = dsLe ++ dsT -> Forall (fun d => d_sd d <= latest) dsLe -> Forall (fun d => latest < d_sd d) dsT ->
   Forall (fun d => d_sd d <= latest) dsGK ->
-  roundtrip_of exact latest false rows ds = true.
+  roundtrip_of exact latest false rows ds = true /\ roundtrip_obs_of exact latest false rows ds = true.
 Proof.
   intros rows Hng ET Hms Hcsv HngGK HsGK HleGK Hrun Eds HLe HT HGK.
-  unfold roundtrip_of. rewrite Hms, Hcsv.
+  unfold roundtrip_of, roundtrip_obs_of. rewrite Hms, Hcsv.
   set (X := GK ++ rows_after latest rows).
   assert (HngX : Forall (fun t => t_glob t = false) (Summary.number_from 0 X)).
   { rewrite number_from_eq. assert (HX : Forall (fun t => t_glob t = false) X).
@@ -257,9 +263,14 @@ Proof.
   pose proof (run_erase exact None (sort_txs (Summary.number_from 0 X))) as R1. rewrite E2 in R1.
   pose proof (run_erase exact None (GK ++ T)) as R2. rewrite Hrun in R2.
   rewrite EL2, R2 in R1. inversion R1 as [[Eds2 Eo]]. subst o2.
-  rewrite <- (same_reports_erase _ (later_deltas latest ds2)), <- later_deltas_erase, <- Eds2, later_deltas_erase, same_reports_erase.
-  rewrite Eds, (later_deltas_split latest dsLe dsT HLe HT), (later_deltas_split latest dsGK dsT HGK HT).
-  apply same_reports_refl.
+  assert (El : map erase_d (later_deltas latest ds2) = map erase_d dsT).
+  { rewrite <- later_deltas_erase, <- Eds2, later_deltas_erase, (later_deltas_split latest dsGK dsT HGK HT). reflexivity. }
+  split.
+  - rewrite <- (same_reports_erase _ (later_deltas latest ds2)), El, same_reports_erase.
+    rewrite Eds, (later_deltas_split latest dsLe dsT HLe HT). apply same_reports_refl.
+  - unfold later_obs. rewrite <- (same_reports_erase _ (filter _ (later_deltas latest ds2))), <- filter_erase_d, El, filter_erase_d,
+      same_reports_erase.
+    rewrite Eds, (later_deltas_split latest dsLe dsT HLe HT). apply same_reports_refl.
 Qed.
 
 (* ---------------------------------------------------------------- more cuts *)
@@ -447,7 +458,7 @@ Theorem roundtrip_single_security regof sec latest rows0 :
   K_summary_buy_in_window exact latest false rows = false ->
   K_zero_balance_acb exact latest rows = false ->
   (forall sums, make_summary exact latest (fst (sec_run exact rows)) false = Ok sums -> through_csv sums = sums) ->
-  roundtrip_ok exact latest false rows = true.
+  roundtrip_ok exact latest false rows = true /\ roundtrip_obs_ok exact latest false rows = true.
 Proof.
   intros rows HQ0 Hnz0 Hsp0 Hok HK1 HK3 Hcsv.
   assert (HQ : Forall (rowQ regof sec) rows) by (apply number_from_Forall; [intros t i H; exact H | exact HQ0]).
@@ -460,7 +471,7 @@ Proof.
   set (L := sort_txs rows).
   pose proof (Forall_sort_txs _ _ HQ) as HQL. pose proof (Forall_sort_txs _ _ Hnz) as HnzL.
   pose proof (Forall_sort_txs _ _ Hsp) as HspL. fold L in HQL, HnzL, HspL.
-  unfold roundtrip_ok, history_ok, K_summary_buy_in_window, K_zero_balance_acb in *.
+  unfold roundtrip_ok, roundtrip_obs_ok, history_ok, K_summary_buy_in_window, K_zero_balance_acb in *.
   rewrite (sec_run_noglob exact rows Hng) in *. fold L in Hok, HK1, HK3, Hcsv |- *.
   destruct (run exact None L) as [ds o] eqn:Erun. cbn [fst snd] in *. destruct o; [discriminate|].
   rewrite run_None in Erun. fold st0 in Erun.
